@@ -1,5 +1,6 @@
 import SSVerif.Proofs.FsgFile
 import SSVerif.Proofs.FsgBest
+import SSVerif.Proofs.FsgRead
 /-!
 # C13 — Grammar transformations and FSG files preserve the grammar
 
@@ -175,6 +176,63 @@ theorem C13_write_read_closed (C : Codec) (q : Int → Int) (g : Fsg) (law : Cod
     read C (write C g) = .ok (rebuild q g) ∧ ∀ a c, nullLookup (rebuild q g) a c = nullLookup g a c := by
   refine ⟨?_, rebuild_lookup hwf hsrc hq⟩
   rw [read_write law wf, closure_of_closed (rebuild_closed hwf hc hsrc hq)]
+
+/-- **Every token file is either refused or read into a well-formed grammar.**  `read` is total
+(13 error kinds: missing/malformed `FSG_BEGIN`, `NUM_STATES`, `START_STATE`, `FINAL_STATE`,
+from/to state, probability).  When it returns a grammar: start, final state and both ends of every
+arc — also of the null links the reader's closure added — are inside `0 … nState-1`, word ids are
+inside the vocabulary, the vocabulary has no duplicate, no filler/alternate bit is set, log-zero is
+the reader's; and when the probability parser only yields values in `[log-zero, 0]` (`ReadLaw`,
+observed on every token the harness parses) the null links are well-formed and closed.  Keywords
+may be abbreviated: a token matches a keyword iff it is a prefix of it (`strncmp` over the token's
+length), so `T`, `TRANS`, `N`, `S`, `F`, `FSG_E` … are accepted as the C reader accepts them. -/
+theorem C13_read_wf (C : Codec) (lines : List (List String)) :
+    (∃ err, read C lines = .error err) ∨
+    (∃ g, read C lines = .ok g ∧ g.start < g.nState ∧ g.final < g.nState ∧ InRange g ∧ VocOK g ∧ g.vocab.Nodup ∧
+      g.logZero = C.zero ∧ g.sil = [] ∧ g.alt = [] ∧ (ReadLaw C → ClosureWF g ∧ NullClosed g)) := by
+  cases h : read C lines with
+  | error err => exact .inl ⟨err, rfl⟩
+  | ok g => exact .inr ⟨g, rfl, read_wf h⟩
+
+theorem C13_kwMatch_iff (tok kw : String) : kwMatch tok kw = true ↔ tok.toList <+: kw.toList := kwMatch_iff tok kw
+
+/-- `fsg_model_word_add`: the returned id names the word, it is inside the (possibly grown)
+vocabulary, the old vocabulary is a prefix of the new one (ids are stable), links and states are
+untouched, and a second call returns the same id without growing anything -/
+theorem C13_wordAdd_spec (g : Fsg) (s : String) :
+    wordStr (wordAdd g s).1 (wordAdd g s).2 = s ∧ (wordAdd g s).2 < (wordAdd g s).1.vocab.length ∧
+    (∃ ext, (wordAdd g s).1.vocab = g.vocab ++ ext) ∧ (wordAdd g s).1.links = g.links ∧
+    wordAdd (wordAdd g s).1 s = ((wordAdd g s).1, (wordAdd g s).2) := by
+  obtain ⟨a, b, c, d, _⟩ := wordAdd_spec g s
+  refine ⟨a, b, c, d, ?_⟩
+  have := wordId_wordAdd g s
+  unfold wordAdd at this ⊢
+  cases h : wordId g s with
+  | some i => simp only [h] at this ⊢
+  | none => simp only [h] at this ⊢; rw [this]
+
+/-- `fsg_model_arcs` / the writer's order: the arcs of state `i` are its word arcs followed by its
+null arcs, and together they are exactly the links leaving `i` -/
+theorem C13_arcsOf_spec (g : Fsg) (i : Nat) :
+    (∃ ws ns, arcsOf g i = ws ++ ns ∧ (∀ l ∈ ws, l.wid ≠ none) ∧ (∀ l ∈ ns, l.wid = none)) ∧
+    (∀ l, l ∈ arcsOf g i ↔ l ∈ g.links ∧ l.src = i) := by
+  refine ⟨⟨_, _, rfl, fun l hl => ?_, fun l hl => ?_⟩, fun l => ?_⟩
+  · have := (List.mem_filter.1 hl).2
+    simp [Link.isNull] at this
+    intro e; rw [e] at this; simp at this
+  · have := (List.mem_filter.1 hl).2
+    simp [Link.isNull, Option.isNone_iff_eq_none] at this
+    exact this.1
+  · unfold arcsOf
+    simp only [List.mem_append, List.mem_filter]
+    constructor
+    · rintro (⟨h, c⟩ | ⟨h, c⟩)
+      · exact ⟨h, by simp at c; exact c.2⟩
+      · exact ⟨h, by simp at c; exact c.2⟩
+    · rintro ⟨h, rfl⟩
+      by_cases hn : l.isNull = true
+      · exact .inr ⟨h, by simp [hn]⟩
+      · exact .inl ⟨h, by simp [hn]⟩
 
 /-- the grammar's language is the language of the ε-NFA handed to the verified equivalence oracle
 (`SSVerif.Nfa.nfaEquiv_sound`), also after projection to real words -/
